@@ -29,3 +29,5 @@ func github.com/ipfs/go-cid.Cid.Equals
   params o
   modifies nothing
   ensures result == (self == o)
+# C01: a list / map of decoded blocks in which every block is filed under, and hashes to, its own CID
+pred blkListOK(bs []blocks.Block) := forall j int :: 0 <= j && j < len(bs) ==> bs[j] != nil && isSumOf(blkCid(bs[j]), blkData(bs[j]))
